@@ -13,6 +13,15 @@ CLAIMED = {
             "sizes <= 3 (quick) / 4 (thorough), history length <= 2 / 3, element types uint8_t/int/12-byte POD; allocation never fails; "
             "operator new/delete = malloc/free model; trusted: clang -O1 lowering, ll2c translator (validated by differential runs), cbmc",
             "bounded model checking (cbmc) of LLVM-IR-derived C, native sanitizer replay"),
+    "C15": ("model_checking",
+            "Bounded symbolic checking of the real DataStreaming.cpp/.h code: FixedBufferWriter::write/reserve and BufferReader::read/getView "
+            "as one step from an arbitrary valid (capacity,cursor) state with the size/count a full 64-bit symbol; typed round trips through "
+            "BufferWriter->BufferReader with symbolic contents; every truncation point; WriteSizeCalculator agreement.",
+            "DESIGN.md 3/C15",
+            "capacity <= 4 (quick) / 6 (thorough) bytes; round-trip shapes: POD tuple, vector<int> 0..1 (2 thorough), AbstractArray<int> 0..2; "
+            "std::string / vector<string> payloads need the libstdc++ string model (unit stream_str when present); getView<T> only compiles for uint8_t; "
+            "allocation never fails",
+            "bounded model checking (cbmc) of LLVM-IR-derived C, native sanitizer replay"),
 }
 
 NOT_YET = "check not yet built (work in progress, see DESIGN.md section 7)"
